@@ -1000,6 +1000,10 @@ static size_t ZSTD_decompressFrame(ZSTD_DCtx* dctx,
         ip += ZSTD_blockHeaderSize;
         remainingSrcSize -= ZSTD_blockHeaderSize;
         RETURN_ERROR_IF(cBlockSize > remainingSrcSize, srcSize_wrong, "");
+        /* Block_Maximum_Size bounds the size of raw and compressed blocks, and the content of RLE blocks :
+         * same verdict as the streaming decoder, and what ZSTD_decompressBound() is computed from */
+        RETURN_ERROR_IF((blockProperties.blockType == bt_rle ? (size_t)blockProperties.origSize : cBlockSize) > dctx->fParams.blockSizeMax,
+                        corruption_detected, "Block Size Exceeds Maximum");
 
         if (ip >= op && ip < oBlockEnd) {
             /* We are decompressing in-place. Limit the output pointer so that we
@@ -1036,6 +1040,7 @@ static size_t ZSTD_decompressFrame(ZSTD_DCtx* dctx,
             RETURN_ERROR(corruption_detected, "invalid block type");
         }
         FORWARD_IF_ERROR(decodedSize, "Block decompression failure");
+        RETURN_ERROR_IF(decodedSize > dctx->fParams.blockSizeMax, corruption_detected, "Decompressed Block Size Exceeds Maximum");
         DEBUGLOG(5, "Decompressed block of dSize = %u", (unsigned)decodedSize);
         if (dctx->validateChecksum) {
             XXH64_update(&dctx->xxhState, op, decodedSize);
